@@ -137,6 +137,7 @@ pub fn all_points(ctx: &Ctx) -> Vec<(&'static str, usize)> {
         ("open.config_read", 1),
         ("index.before_open", 1),
         ("index.before_remove", 1),
+        ("index.meta_invalidated", 1),
         ("index.removed", 1),
         ("index.dir_created", 1),
         ("index.ready", 1),
